@@ -542,6 +542,9 @@ def pinned_reg_cases(transports):
         mk([["h1", "u1@h2"]], l="L" * n_)
         mk([["W" * n_ + "@h1", "h2"]], l="bob")
         mk([[t2 + ":" + "V" * n_ + "@h1", "u1@h1"]])
+        # every -l is tested as it is read: one beyond the limit refuses the run although a later -l replaces it
+        mk([["h1", "u1@h2"]], ls=["L" * n_, "bob"], l="bob")
+        mk([["h1", "u1@h2"]], pre_l="L" * n_, l="bob")
     # 8. rank = position in the list that is left after the exclusions
     six = ["n1", "n2", "n3", "n4", "n5", "n6"]
     for ex in (["n1"], ["n6"], ["n3"], ["n2", "n4"], ["n1", "n2", "n3"], ["n1", "n6"], ["n5", "n6"]):
@@ -589,6 +592,13 @@ def hostpart(w):
     return w
 
 
+def earlier_ls(c):
+    """the -l options of the command line before the last one (every option of a registry case takes an argument)"""
+    av = c["argv"][:len(c["argv"]) - len(c["cmd"])]
+    ls = [av[i + 1] for i in range(0, len(av) - 1, 2) if av[i] == "-l"]
+    return " ls=" + "+".join(hx(x) for x in ls[:-1]) if len(ls) > 1 else ""
+
+
 def reg_line(c, transports, luser):
     names = [transports[i] for i in c["loaded_ids"]]
     targets = []
@@ -605,8 +615,8 @@ def reg_line(c, transports, luser):
         if h in targets:
             targets.remove(h)
     opt = lambda v: "~" if v is None else hx(v)
-    return "reg loaded=%s env=%s R=%s l=%s luser=%s T=%s %s" % (
-        "+".join(hx(n) for n in names), opt(c["envtype"]), opt(c["R"]), opt(c["l"]), hx(luser),
+    return "reg loaded=%s env=%s R=%s l=%s%s luser=%s T=%s %s" % (
+        "+".join(hx(n) for n in names), opt(c["envtype"]), opt(c["R"]), opt(c["l"]), earlier_ls(c), hx(luser),
         "+".join(hx(t) for t in targets), " ".join(wtoks)), targets
 
 
@@ -622,8 +632,8 @@ def regcli_line(c, transports, luser):
             evs.append("E=w:" + hx(av[i + 1]))
         elif av[i] == "-x":
             evs.append("E=x:" + hx(av[i + 1]))
-    return "regcli loaded=%s env=%s R=%s l=%s luser=%s %s" % (
-        "+".join(hx(n) for n in names), opt(c["envtype"]), opt(c["R"]), opt(c["l"]), hx(luser), " ".join(evs))
+    return "regcli loaded=%s env=%s R=%s l=%s%s luser=%s %s" % (
+        "+".join(hx(n) for n in names), opt(c["envtype"]), opt(c["R"]), opt(c["l"]), earlier_ls(c), hx(luser), " ".join(evs))
 
 
 def part_c(ctx, cov, dist, rng, repo, only=None):
